@@ -1364,7 +1364,12 @@ class Interp:
         left = self.eval(fr, load)
         right = self.eval(fr, st.value)
         v = self.binop(fr, st.op, left, right, st)
-        self.assign(fr, t, v, st)
+        sym = None
+        if isinstance(t, ast.Name) and isinstance(st.op, (ast.Add, ast.Sub)) and isinstance(st.value, ast.Constant) and type(st.value.value) is int:
+            cur = self.sym_of_name(fr, t.id)
+            if isinstance(cur, tuple) and cur and cur[0] == 'ctr':
+                sym = ('ctr', cur[1], cur[2] + (st.value.value if isinstance(st.op, ast.Add) else -st.value.value))
+        self.assign(fr, t, v, st, sym=sym)
         out.next.append(fr.store)
 
     def st_Raise(self, fr, st, store, out):
@@ -2571,6 +2576,10 @@ class Interp:
             kind = a[1]
             if kind == 'ctypes.int' and attr == 'value':
                 return av(INT_S)
+            if kind == 'struct.Struct' and attr == 'size':
+                return av(INT_S)
+            if kind == 'struct.Struct' and attr == 'format':
+                return a[2]
             return av(('bmeth', a, attr))
         if k == 'kdict' and a[2] == ('dcfield',) and const(attr) in dict(a[1]):
             return dict(a[1])[const(attr)]
@@ -2633,6 +2642,8 @@ class Interp:
             a = atoms[0]
             if a[0] == 'seq':
                 return 'exact', list(a[2])
+            if a[0] == 'c' and a[1] == 'str' and len(a[2]) <= 64:
+                return 'exact', [av(const(ch)) for ch in a[2]]
             if a[0] == 'kdict':
                 return 'exact', [av(k) for k, _ in a[1]]
             if a[0] == 'enum' and a[1] is not None:
@@ -2849,7 +2860,7 @@ class Interp:
     def ambient_words(self, fr):
         """string constants the current path is known to be about: prefixes / arguments of tests that held, and the constants
         local names are narrowed to (`keyword == 'include'` failed, so keyword is 'include_bytes')"""
-        out = set(fr.store.guards)
+        out = set(fr.store.guards) | {f[1] for f in fr.store.facts if f[0] == 'guard'}
         for k, v in fr.store.vars.items():
             if isinstance(k, str) and 0 < len(v) <= 4 and all(a == NONE or (a[0] == 'c' and a[1] == 'str') for a in v):
                 out |= {a[2] for a in v if a != NONE and 0 < len(a[2]) <= 32}
@@ -3486,6 +3497,7 @@ class Interp:
             if words:
                 s_f0 = store.copy() if cf else store
                 store.guards = store.guards | words
+                store.facts = store.facts | {('guard', w_) for w_ in words}
                 return True, store, cf, s_f0
         if not refine or not (ct and cf):
             if ct and cf:
@@ -3747,6 +3759,27 @@ class Interp:
                 if isinstance(s, tuple) and s and s[0] == 'headof':
                     return s
                 return None
+        if isinstance(expr, ast.BinOp) and isinstance(expr.op, (ast.Add, ast.Sub)) and isinstance(expr.right, ast.Constant) and type(expr.right.value) is int:
+            s_ = self.sym_of(fr, expr.left)
+            if isinstance(s_, tuple) and s_ and s_[0] == 'ctr':
+                return ('ctr', s_[1], s_[2] + (expr.right.value if isinstance(expr.op, ast.Add) else -expr.right.value))
+            return None
+        if isinstance(expr, ast.BinOp) and isinstance(expr.op, ast.Add) and isinstance(expr.left, ast.Constant) and type(expr.left.value) is int:
+            s_ = self.sym_of(fr, expr.right)
+            if isinstance(s_, tuple) and s_ and s_[0] == 'ctr':
+                return ('ctr', s_[1], s_[2] + expr.left.value)
+            return None
+        if isinstance(expr, ast.Subscript) and isinstance(expr.value, ast.Name) and isinstance(expr.slice, ast.Name) \
+                and self.owner_frame(fr, expr.value.id) is fr and self.owner_frame(fr, expr.slice.id) is fr:
+            # rows[i] of the physical lines: the element at the position the counter i has now (i is given a counter identity)
+            v = fr.store.vars.get(expr.value.id)
+            if v and all(a[0] == 'lines' for a in v):
+                cur = fr.store.syms.get(expr.slice.id)
+                if not (isinstance(cur, tuple) and cur and cur[0] == 'ctr'):
+                    cur = ('ctr', (fr.fid, expr.slice.id) + pos_of(expr), 0)
+                    fr.store.syms[expr.slice.id] = cur
+                return ('at', cur[1], cur[2])
+            return None
         if isinstance(expr, ast.Subscript) and isinstance(expr.value, ast.Name) and isinstance(expr.slice, ast.Constant) and expr.slice.value == 0:
             if self.owner_frame(fr, expr.value.id) is fr:
                 v = fr.store.vars.get(expr.value.id)
@@ -3951,6 +3984,7 @@ class Interp:
                 s_t = s_f = store
             if ct and len(kv) == 1 and is_const(next(iter(kv))) and next(iter(kv))[1] == 'str':
                 s_t.guards = s_t.guards | {next(iter(kv))[2]}
+                s_t.facts = s_t.facts | {('guard', next(iter(kv))[2])}
             return ct, s_t, cf, s_f
         return None
 
@@ -4812,8 +4846,34 @@ class Interp:
             for a in x:
                 if a[0] in ('kdict', 'dict'):
                     out = join(out, av(a))
-                else:
-                    out = join(out, av(('dict', None, av(TOP), BOT)))
+                    continue
+                mode, pairs = self.iteration(fr, av(a), node)
+                if mode == 'exact':
+                    items, ok = [], True
+                    for p_ in pairs:
+                        two = [b for b in p_ if b[0] == 'seq' and len(b[2]) == 2]
+                        if len(two) != 1 or len(p_) != 1 or len(two[0][2][0]) != 1 or not is_key(next(iter(two[0][2][0]))):
+                            ok = False
+                            break
+                        kk = next(iter(two[0][2][0]))
+                        items = [(k2, v2) for k2, v2 in items if k2 != kk] + [(kk, two[0][2][1])]
+                    if ok:
+                        items += [(const(k), v) for k, v in args.kw.items()]
+                        out = join(out, av(('kdict', tuple(items), None)))
+                        continue
+                if mode == 'exact':
+                    y = BOT
+                    for e in pairs:
+                        y = join(y, e)
+                    pairs = y
+                keys, vals = BOT, BOT
+                for b in pairs:
+                    if b[0] == 'seq' and len(b[2]) == 2:
+                        keys, vals = join(keys, b[2][0]), join(vals, erase_tags(b[2][1]))
+                    else:
+                        keys, vals = join(keys, av(TOP)), join(vals, av(TOP))
+                nonconst = frozenset(k_ for k_ in keys if not is_key(k_))
+                out = join(out, av(('dict', None if nonconst else frozenset(k_ for k_ in keys if is_key(k_)), vals, nonconst)))
             return out
         if cname == 'type':
             if x is None:
@@ -5258,6 +5318,10 @@ class Interp:
             kind = a[1]
             if kind == 're.Pattern':
                 return self.call_lib(fr, 're.' + attr, Args([av(const('<pattern>'))] + list(pos), args.star, args.kw, args.kwstar), node), None
+            if kind == 'struct.Struct':
+                if attr in ('pack', 'pack_into', 'unpack', 'unpack_from', 'iter_unpack'):
+                    return self.call_lib(fr, 'struct.' + attr, Args([a[2]] + list(pos), args.star, args.kw, args.kwstar), node), None
+                return av(TOP), None
             if kind == 're.Match':
                 if attr in ('group', '__getitem__'):
                     return av(STR_U), None
@@ -5741,7 +5805,9 @@ class Interp:
                     return av(BYTES)
                 return av(('list', av(INT_U, BYTES)))
             if fn == 'Struct':
-                return av(TOP)
+                if x is None or not all(is_const(a) and a[1] in ('str', 'bytes') for a in x):
+                    self.library_raise(fr, 'struct.error', node, uncertain=x is None or any(a == TOP for a in x))
+                return av(('libobj', 'struct.Struct', x if x is not None else av(TOP)))
             return av(TOP)
         if root == 'ctypes':
             return av(('libobj', 'ctypes.int'))
